@@ -36,6 +36,14 @@ def get_method(ctx, name):
     raise AnalysisError('anchor vanished: analysis:SensitivityAnalysis.%s' % name)
 
 
+def class_methods(ctx):
+    m = ctx.prog.mod('analysis')
+    for n in m.tree.body:
+        if isinstance(n, ast.ClassDef) and n.name == 'SensitivityAnalysis':
+            return {s.name: s for s in n.body if isinstance(s, ast.FunctionDef) and s.name not in ('_evaluate_model', 'compute_J', 'compute_Zj')}
+    return {}
+
+
 def coef_of_h(node, hname='h'):
     """c such that node == c*h (sympy), else None"""
     try:
@@ -49,7 +57,9 @@ def coef_of_h(node, hname='h'):
 class Interp:
     """tracks evaluation-point offsets through a sequence of executed statements"""
 
-    def __init__(self, mode, coord=None, pname='param_name'):
+    def __init__(self, mode, coord=None, pname='param_name', methods=None):
+        self.methods = methods or {}    # helper methods of the class (inlined when they build an evaluation point)
+        self.n_inl = 0
         self.mode = mode            # 'J' or 'Z'
         self.xoff = {}              # array var -> {coord text: offset}
         self.poff = {}              # dict var -> offset of param_name
@@ -117,7 +127,13 @@ class Interp:
         if isinstance(v, ast.Subscript) and isinstance(v.value, ast.Call):
             call, comp = v.value, src(v.slice)
         if isinstance(call, ast.Call) and src(call.func) == 'self._evaluate_model' and isinstance(t, ast.Name):
-            xs = src(call.args[0])
+            a0 = call.args[0]
+            if isinstance(a0, ast.Call) and isinstance(a0.func, ast.Attribute) and src(a0.func.value) == 'self' and a0.func.attr in self.methods:
+                xs = self.inline_point(a0)
+                if xs is None:
+                    return
+            else:
+                xs = src(a0)
             if xs not in self.xoff:
                 self.problems.append('model evaluated at untracked point %s' % xs)
                 return
@@ -148,10 +164,45 @@ class Interp:
             self.f[t.id] = rec
             return
         if isinstance(t, ast.Subscript) and isinstance(t.value, ast.Name) and t.value.id in ('J', 'Z'):
-            names = {n.id for n in ast.walk(v) if isinstance(n, ast.Name)}
-            if names & set(self.f):
-                self.stencils.append((t, v))
+            self.stencils.append((t, v))
             return
+
+    def inline_point(self, call):
+        """`self.helper(args)` used as an evaluation point: interpret the helper's straight-line body with the arguments substituted;
+        -> name of the (renamed) array it returns, or None after recording a problem"""
+        import copy
+        m = self.methods[call.func.attr]
+        params = [a.arg for a in m.args.args[1:]]
+        bind = dict(zip(params, call.args))
+        for kw in call.keywords:
+            bind[kw.arg] = kw.value
+        if set(bind) != set(params) or len(call.args) > len(params):
+            self.problems.append('helper %s called with arguments that do not match its parameters' % call.func.attr)
+            return None
+        self.n_inl += 1
+        pre = '_inl%d_' % self.n_inl
+
+        class Sub(ast.NodeTransformer):
+            def visit_Name(sub, n):
+                if n.id in bind and isinstance(n.ctx, ast.Load):
+                    return copy.deepcopy(bind[n.id])
+                if n.id in ('np', 'numpy', 'max', 'min', 'abs', 'self', 'float', 'int', 'len'):
+                    return n
+                return ast.copy_location(ast.Name(id=pre + n.id, ctx=n.ctx), n)
+        body = [x for x in m.body if not (isinstance(x, ast.Expr) and isinstance(x.value, ast.Constant))]
+        for st in body:
+            st = ast.fix_missing_locations(Sub().visit(copy.deepcopy(st)))
+            if isinstance(st, ast.Return):
+                if isinstance(st.value, ast.Name) and st.value.id in self.xoff:
+                    return st.value.id
+                self.problems.append('helper %s does not return a tracked copy of the state' % call.func.attr)
+                return None
+            if not isinstance(st, (ast.Assign, ast.AugAssign)):
+                self.problems.append('helper %s is not straight-line code (%s)' % (call.func.attr, type(st).__name__))
+                return None
+            self.step(st)
+        self.problems.append('helper %s returns nothing' % call.func.attr)
+        return None
 
 
 def analyse_stencil(it, target, expr, mode, coord, comp_expected, p):
@@ -254,7 +305,7 @@ def run_method(ctx, fname, mode):
         ps = [q for q in ps if q.exit == 'fall']
         if len(ps) != 1:
             raise AnalysisError('%s/%s: expected one path through the loop body, found %d' % (fname, method, len(ps)))
-        it = Interp(mode)
+        it = Interp(mode, methods=class_methods(ctx))
         it.xoff = {k: dict(v) for k, v in arrays0.items()}
         for s in pre:
             if isinstance(s, (ast.Assign, ast.AugAssign, ast.Expr)):
